@@ -5,4 +5,5 @@ cd "$(dirname "$(readlink -f "$0")")"
 VERIF=$(pwd)
 . "$VERIF/env.sh"
 build_driver vx
+build_driver vsx
 echo "setup ok"
